@@ -73,9 +73,13 @@ def gen_tree(rng, depth, mode):
     if mode == "exact":
         f = rng.choice(["add", "sub", "mul", "mul", "div", "div", "neg", "abs", "powc", "powc", "inv", "left", "right", "sign"])
         if f == "powc":
+            if rng.random() < 0.2:     # number ** integer
+                return A("pow", C(rng.choice([2, 3, -2, Fraction(1, 2)])), C(rng.choice([-1, 0, 1, 2, 3])))
             return A("pow", sub(), C(rng.choice([-2, -1, 0, 1, 2, 2, 3])))
     else:
-        f = rng.choice(["add", "sub", "mul", "div", "exp", "logp", "powp", "powp", "abs", "neg"])
+        f = rng.choice(["add", "sub", "mul", "div", "exp", "logp", "powp", "powp", "cpow", "abs", "neg"])
+        if f == "cpow":                # positive number ** expression
+            return A("pow", C(rng.choice([2, 3, Fraction(1, 2), Fraction(3, 2)])), gen_tree(rng, min(depth - 1, 1), mode))
         if f == "logp":
             return A("log", A("add", A("abs", sub()), C(rng.choice([Fraction(1, 2), 1, 2]))))
         if f == "powp":
@@ -123,8 +127,10 @@ def fnum(q, exponent=False):
     return int(q) if exponent and q.denominator == 1 else float(q)
 
 
-def to_py(t, sq, rng=None, exponent=False):
-    """build the epgpy Expression with the public operators (raw numbers for some constant operands)"""
+def to_py(t, sq, rng=None, exponent=False, root_raw=None):
+    """build the epgpy Expression with the public operators (raw python numbers for some constant operands:
+    a number on the left goes through the reflected method __radd__ ... __rpow__); root_raw = "left" /
+    "right" forces the raw operand of the root operator"""
     k = t[0]
     if k == "c":
         return sq.Constant(fnum(t[1], exponent))
@@ -134,6 +140,8 @@ def to_py(t, sq, rng=None, exponent=False):
     raw = [a[0] == "c" and rng is not None and rng.random() < 0.5 for a in args]
     if len(args) == 2 and all(raw):
         raw[rng.randrange(2)] = False
+    if root_raw and len(args) == 2:
+        raw = [root_raw == "left" and args[0][0] == "c", root_raw == "right" and args[1][0] == "c"]
     isexp = [f == "pow" and i == 1 for i in range(len(args))]
     ex = [fnum(a[1], e) if r else to_py(a, sq, rng, e) for a, r, e in zip(args, raw, isexp)]
     if f == "add":
@@ -157,6 +165,17 @@ def qlit(q):
     q = Fraction(q)
     n = "(%d)" % q.numerator if q.numerator < 0 else "%d" % q.numerator
     return "(%s # %d)" % (n, q.denominator)
+
+
+def tree_str(t):
+    if t[0] == "c":
+        return "%g" % float(t[1])
+    if t[0] == "v":
+        return t[1]
+    sym = {"add": "+", "sub": "-", "mul": "*", "div": "/", "pow": "**"}
+    if t[1] in sym:
+        return "(%s %s %s)" % (tree_str(t[2][0]), sym[t[1]], tree_str(t[2][1]))
+    return "%s(%s)" % (t[1], ", ".join(tree_str(a) for a in t[2]))
 
 
 def to_coq(t):
@@ -214,14 +233,15 @@ def central_diff(ex, vals, v, h=1e-6):
 
 
 # ------------------------------------------------------------------ (b) expression correspondence
-def gen_expr_case(rng, mode, sq):
+def gen_expr_case(rng, mode, sq, make_tree=None, root_raw=None):
     for _ in range(200):
-        t = gen_tree(rng, rng.choice([1, 2, 2, 3]), mode)
+        t = make_tree(rng) if make_tree else gen_tree(rng, rng.choice([1, 2, 2, 3]), mode)
         if not tree_vars(t) or tree_size(t) > 14:
             continue
         vals = {v: Fraction(rng.choice([k for k in range(-12, 13) if k != 0]), 4) for v in VARS}
         fvals = {k: float(v) for k, v in vals.items()}
-        ex = to_py(t, sq, rng)
+        pyseed = rng.randrange(2 ** 30)
+        ex = to_py(t, sq, random.Random(pyseed), root_raw=root_raw)
         dv = sorted(tree_vars(t))
         v1 = rng.choice(dv)
         v2 = rng.choice(dv)
@@ -242,7 +262,8 @@ def gen_expr_case(rng, mode, sq):
         if mode == "tol":
             if any(o == UNDEF or isinstance(o, tuple) or abs(o) > 10 ** 5 for o in flat):
                 continue
-        return {"tree": t, "vals": vals, "mode": mode, "v1": v1, "v2": v2, "sigma": sigma, "obs": obs, "repr": repr(ex)}
+        return {"tree": t, "vals": vals, "mode": mode, "v1": v1, "v2": v2, "sigma": sigma, "obs": obs, "repr": repr(ex),
+                "pyseed": pyseed, "root_raw": root_raw}
     raise RuntimeError("expression generator exhausted")
 
 
@@ -286,8 +307,18 @@ def run_expressions(ctx, sq, n_exact, n_tol):
     rng = ctx.rng
     # ---- exact (rational) mode
     cases, terms, meta = [], [], []
-    for _ in range(n_exact):
-        c = gen_expr_case(rng, "exact", sq)
+    # every binary operator with a plain python number on the left (reflected method) and on the right
+    forced = [(f, side) for f in ("add", "sub", "mul", "div") for side in ("left", "right")] + [("pow", "right")]
+    plan = [("forced", fs) for fs in forced] + [("random", None)] * n_exact if n_exact else []
+    for how, fs in plan:
+        if how == "forced":
+            f, side = fs
+            cst = lambda r: C(r.choice([2, 3, -2, Fraction(1, 2), Fraction(5, 2)])) if f != "pow" else C(r.choice([2, 3]))
+            mk = (lambda r, f=f, side=side, cst=cst: A(f, cst(r), gen_tree(r, r.choice([0, 1]), "exact")) if side == "left"
+                  else A(f, gen_tree(r, r.choice([0, 1]), "exact"), cst(r)))
+            c = gen_expr_case(rng, "exact", sq, make_tree=mk, root_raw=side)
+        else:
+            c = gen_expr_case(rng, "exact", sq)
         tol = exact_tol(c)
         conj = []
         for label, term, o in case_checks(c):
@@ -315,8 +346,13 @@ def run_expressions(ctx, sq, n_exact, n_tol):
     ctx.cov["expr_exact_checks"] = len(terms)
     # ---- tolerance mode (Interval)
     goals, gmeta, tcases = [], [], []
-    for _ in range(n_tol):
-        c = gen_expr_case(rng, "tol", sq)
+    tplan = ([("forced", None)] * 2 + [("random", None)] * n_tol) if n_tol else []
+    for how, _ in tplan:
+        if how == "forced":      # number ** expression (reflected power)
+            mk = lambda r: A("pow", C(r.choice([2, 3, Fraction(1, 2), Fraction(3, 2)])), gen_tree(r, r.choice([0, 1]), "exact"))
+            c = gen_expr_case(rng, "tol", sq, make_tree=mk, root_raw="left")
+        else:
+            c = gen_expr_case(rng, "tol", sq)
         tcases.append(c)
         conj = []
         for label, term, o in case_checks(c):
@@ -365,14 +401,82 @@ def run_goals(ctx, tag, goals):
 
 def ser(c):
     return {"tree": c["tree"], "vals": {k: str(v) for k, v in c["vals"].items()}, "mode": c["mode"], "repr": c["repr"],
-            "v1": c["v1"], "v2": c["v2"], "sigma": c["sigma"]}
+            "v1": c["v1"], "v2": c["v2"], "sigma": c["sigma"], "pyseed": c.get("pyseed"), "root_raw": c.get("root_raw")}
+
+
+def rebuild(c, sq):
+    """the same python construction as in the case (same raw-number operands)"""
+    return to_py(c["tree"], sq, random.Random(c["pyseed"]) if c.get("pyseed") is not None else None, root_raw=c.get("root_raw"))
+
+
+def spec_val(t, vals):
+    """closed-form meaning of the formula as written: plain python float arithmetic (the specification side)"""
+    k = t[0]
+    if k == "c":
+        return float(t[1])
+    if k == "v":
+        return vals[t[1]]
+    a = [spec_val(x, vals) for x in t[2]]
+    f = t[1]
+    if f == "sign":
+        return float((a[0] > 0) - (a[0] < 0))
+    return {"add": lambda: a[0] + a[1], "sub": lambda: a[0] - a[1], "mul": lambda: a[0] * a[1], "div": lambda: a[0] / a[1],
+            "pow": lambda: a[0] ** a[1], "exp": lambda: math.exp(a[0]), "log": lambda: math.log(a[0]), "neg": lambda: -a[0],
+            "abs": lambda: abs(a[0]), "inv": lambda: 1.0 / a[0], "left": lambda: a[0], "right": lambda: a[1]}[f]()
+
+
+def spec_diff(t, vals, v, h=1e-6):
+    a, b = dict(vals), dict(vals)
+    a[v] += h
+    b[v] -= h
+    return (spec_val(t, a) - spec_val(t, b)) / (2 * h)
 
 
 def explain_expr_mismatch(ctx, sq, c, label):
-    """model and implementation disagree: does derive disagree with the numerical derivative of the
-    implementation's own evaluation?  (then it is a failing input of the property)"""
+    """model and implementation disagree: find the failing input of the property -- the value against the
+    closed-form meaning of the formula as written, derive against central differences of that meaning and of
+    the implementation's own evaluation"""
     t, fvals = c["tree"], {k: float(v) for k, v in c["vals"].items()}
-    ex = to_py(t, sq)
+    ex = rebuild(c, sq)
+    try:
+        with np.errstate(all="ignore"):
+            got, want = float(ex(**fvals)), spec_val(t, fvals)
+        if isinstance(want, float) and math.isfinite(got) and math.isfinite(want) and abs(got - want) > 1e-9 * (1 + abs(want)):
+            ctx.report("Expression built as %s from the formula %s evaluates to %.12g at %s; the formula is %.12g" % (
+                c["repr"], tree_str(t), got, fvals, want), {"case": ser(c), "value": got, "closed_form": want},
+                found_input=True, signature={"site": "Expression", "why": "value", "functions": sorted(tree_fns(t))})
+            return
+    except Exception:
+        pass
+    try:     # substitution: simultaneous, commutes with evaluation
+        sigma = c["sigma"]
+        pysig = {k: (to_py(s_[1], sq) if s_[0] == "e" else s_[1] if s_[0] == "s" else fnum(s_[1])) for k, s_ in sigma.items()}
+        sub = dict(fvals)
+        for k, s_ in sigma.items():
+            sub[k] = spec_val(s_[1], fvals) if s_[0] == "e" else fvals[s_[1]] if s_[0] == "s" else float(s_[1])
+        with np.errstate(all="ignore"):
+            got, want = float(ex.map(pysig)(**fvals)), spec_val(t, sub)
+        if isinstance(want, float) and math.isfinite(got) and math.isfinite(want) and abs(got - want) > 1e-9 * (1 + abs(want)):
+            ctx.report("%s .map(%s) evaluates to %.12g at %s; the formula with every variable replaced simultaneously is %.12g" % (
+                c["repr"], {k: (tree_str(s_[1]) if s_[0] == "e" else str(s_[1])) for k, s_ in sigma.items()}, got, fvals, want),
+                {"case": ser(c), "value": got, "closed_form": want, "check": "map"},
+                found_input=True, signature={"site": "Expression.map"})
+            return
+    except Exception:
+        pass
+    for v in sorted(tree_vars(t)):
+        try:
+            with np.errstate(all="ignore"):
+                d, sd = float(ex.derive(v)(**fvals)), spec_diff(t, fvals, v)
+            sd2 = spec_diff(t, fvals, v, h=1e-5)
+        except Exception:
+            continue
+        if (isinstance(sd, float) and math.isfinite(d) and math.isfinite(sd) and abs(sd - sd2) <= 1e-6 * (1 + abs(sd))
+                and abs(d - sd) > 1e-4 * (1 + abs(sd))):
+            ctx.report("Expression.derive(%s) of %s (formula %s) at %s gives %.9g, central difference of the formula gives %.9g" % (
+                v, c["repr"], tree_str(t), fvals, d, sd), {"case": ser(c), "derive": d, "central_difference": sd, "variable": v},
+                found_input=True, signature={"site": "Expression.derive", "functions": sorted(tree_fns(t))})
+            return
     for v in sorted(tree_vars(t)):
         try:
             with np.errstate(all="ignore"):
@@ -1290,11 +1394,25 @@ def replay(ctx, rp):
             return (t[0], Fraction(t[1])) if t[0] == "c" else (t[0], t[1]) if t[0] == "v" else (t[0], t[1], [tup(a) for a in t[2]])
         t = tup(rp["case"]["tree"])
         fvals = {k: float(Fraction(v)) for k, v in rp["case"]["vals"].items()}
-        ex = to_py(t, sq)
+        ex = rebuild(dict(rp["case"], tree=t), sq)
+        if rp.get("check") == "map":
+            sigma = {k: ((s_[0], tup(s_[1])) if s_[0] == "e" else (s_[0], s_[1])) for k, s_ in rp["case"]["sigma"].items()}
+            pysig = {k: (to_py(s_[1], sq) if s_[0] == "e" else s_[1] if s_[0] == "s" else fnum(s_[1])) for k, s_ in sigma.items()}
+            sub = dict(fvals)
+            for k, s_ in sigma.items():
+                sub[k] = spec_val(s_[1], fvals) if s_[0] == "e" else fvals[s_[1]] if s_[0] == "s" else float(Fraction(s_[1]))
+            got, want = float(ex.map(pysig)(**fvals)), spec_val(t, sub)
+            bad = abs(got - want) > 1e-9 * (1 + abs(want))
+            print("replay: %s .map(...) = %.12g, simultaneous substitution in the formula = %.12g -> %s" % (repr(ex), got, want, "VIOLATION reproduced" if bad else "agree"))
+            return 1 if bad else 0
+        got, want = float(ex(**fvals)), spec_val(t, fvals)
+        if abs(got - want) > 1e-9 * (1 + abs(want)):
+            print("replay: %s built from %s evaluates to %.12g, the formula is %.12g -> VIOLATION reproduced" % (repr(ex), tree_str(t), got, want))
+            return 1
         v = rp.get("variable") or sorted(tree_vars(t))[0]
-        d, fd = float(ex.derive(v)(**fvals)), central_diff(ex, fvals, v)
-        bad = abs(d - fd) > 1e-4 * (1 + abs(fd))
-        print("replay: %s derive(%s)=%.9g central difference=%.9g -> %s" % (repr(ex), v, d, fd, "VIOLATION reproduced" if bad else "agree"))
+        d, fd, sd = float(ex.derive(v)(**fvals)), central_diff(ex, fvals, v), spec_diff(t, fvals, v)
+        bad = abs(d - fd) > 1e-4 * (1 + abs(fd)) or abs(d - sd) > 1e-4 * (1 + abs(sd))
+        print("replay: %s derive(%s)=%.9g central difference=%.9g (of the formula: %.9g) -> %s" % (repr(ex), v, d, fd, sd, "VIOLATION reproduced" if bad else "agree"))
         return 1 if bad else 0
     if kind == "vop":
         c = rp["case"]
